@@ -175,7 +175,7 @@ def r05_2_3(prog, rep, direction):
                 rep.check(ok, "R05.3", c.qualname, f.loc, f"self.{attr} meets its own component", f"self.{attr}: {why}", detail=attr)
         # structured output key must be the iterated field name
         for p, r in P.returns(P.paths_of(prog, f)):
-            shape, leaves, conds = K.output_leaves(r)
+            shape, leaves, conds = K.output_leaves(r, [g for g, pol in p.guards() if pol])
             if leaves and any(s.kind == "dict" for s in sl.values()):
                 k = [leaf for role, leaf in leaves if role == "k"]
                 v = [leaf for role, leaf in leaves if role == "v"]
